@@ -372,8 +372,20 @@ def check_longrun(case, ctx):
             ctx.violation('decoding-terminates', f'{K}/{name}/step-count', f'{desc}: expected the cap of {cap} steps')
             return
     n = min(res[True].shape[0], res[False].shape[0])
-    d1 = np.abs(res[True][:n] - res[False][:n]).max(axis=-1)
-    d2 = np.abs(res[True] - ref[:res[True].shape[0]]).max(axis=-1)
+    # (the disabled boundary symbol scores about -1e4, where one float32 ulp is 1e-3: differences are measured relative to the magnitude)
+    rel = lambda a, b: (np.abs(a - b) / np.maximum(1.0, np.maximum(np.abs(a), np.abs(b)))).max(axis=-1)
+    d1 = rel(res[True][:n], res[False][:n])
+    d2 = rel(res[True], ref[:res[True].shape[0]])
+    # the emitted symbol is fed back: once a step is decided by a margin below 1e-3, round-off may legitimately send the two runs down
+    # different paths - only the steps up to the first such step are compared
+    def first_unclear(lg):
+        srt = np.sort(lg, axis=-1)
+        unclear = np.nonzero(srt[:, -1] - srt[:, -2] < 1e-3)[0]
+        return int(unclear[0]) if len(unclear) else lg.shape[0]
+    upto = min(first_unclear(res[True]), first_unclear(res[False])) + 1
+    d1, d2 = d1[:upto], d2[:upto]
+    if upto > 140:
+        ctx.tag('long-run-compared-beyond-128-steps')
     if d1.max() > TOL:
         ctx.violation('cached-equals-recomputed', f'{K}/cached-differs-from-recomputed',
                       f'{desc}: scores differ by {float(d1.max()):.4g}, first at step {int(np.argmax(d1 > TOL))}')
@@ -435,7 +447,7 @@ def check_buildnet(case, ctx):
     if not (cap <= lg.shape[0] <= cap + 2):
         ctx.violation('decoding-terminates', f'{K}/step-count', f'{desc}, expected the cap of {cap}')
         return
-    d = np.abs(lg - ref[:lg.shape[0]]).max(axis=-1)
+    d = (np.abs(lg - ref[:lg.shape[0]]) / np.maximum(1.0, np.abs(lg))).max(axis=-1)
     if d.max() > 10 * TOL:
         ctx.violation('equals-teacher-forced-forward', f'{K}/cached-differs-from-teacher-forced-forward',
                       f'{desc}: scores differ from TransformerOCR.forward by {float(d.max()):.4g}, first at step {int(np.argmax(d > 10 * TOL))}')
@@ -556,7 +568,7 @@ def describe(tier):
         'alphabets': {'batches(width, line seeds)': BATCHES, 'events': len(EVENTS)},
         'assumptions': ['scores compared within 1e-4 (float32)', 'transcripts compared only when every deciding arg-max margin exceeds 1e-3'],
         'min_nontrivial': 50,
-        'required_tags': ['network-from-build_net-on-the-widest-crops', 'run_ocr-histories', 'run_ocr-narrower-batch-after-a-wider-one', 'batch-at-a-byte-boundary', 'lines-finish-at-different-steps', 'line-hit-the-length-cap', 'previous-batch-of-same-size-and-width',
+        'required_tags': ['long-run-compared-beyond-128-steps', 'network-from-build_net-on-the-widest-crops', 'run_ocr-histories', 'run_ocr-narrower-batch-after-a-wider-one', 'batch-at-a-byte-boundary', 'lines-finish-at-different-steps', 'line-hit-the-length-cap', 'previous-batch-of-same-size-and-width',
                           'previous-batch-of-same-size-other-width', 'cached-and-uncached-calls-mixed',
                           'line-finished-at-first-step-while-others-continue', 'ignore-symbol-emitted-mid-line'],
     }
